@@ -27,7 +27,11 @@ def _layout(run):
 
 
 def run():
-    chk = core_check("C03", quick_keep=12, thorough_keep=4, annotate=_layout, extra=_seqedit)
+    chk = core_check("C03", cfgs=("B", "A"), quick_keep=12, thorough_keep=4, annotate=_layout, extra=_seqedit,
+                     # real sessions (the plugin's own session end) of two-site programs in which something is pending
+                     # that is NOT approved: the snapshot that is not being changed must keep its text
+                     sessions_quick=240, sessions_thorough=2400, keep_b=(3, 1),
+                     session_filter=lambda r: bool(r["exp"]["F"]) and any(set(p) - set(r["exp"]["F"]) for p in r["exp"]["pending"]))
     if isinstance(chk, int):
         return chk
     return chk.finish(
